@@ -18,12 +18,14 @@ for pid in sorted(PROPS):
         "engine": "vh",
         "level_claimed": {
             "category": "exploration",
-            "text": p.get("level_text", "An oracle observes executions of the real library code under generated, boundary-directed and fault-injected workloads; "
-                                       "the property held on every execution explored (counts and kinds in the evidence), nothing is claimed beyond them."),
+            "text": p.get("level_text", "Exploration by runtime monitoring: the real library code is executed (release and debug/overflow-check builds%s) under generated, "
+                                       "boundary-directed and fault-injected workloads while an oracle that shares no code with the library judges every execution. "
+                                       "'Held' means: no divergence on the executions explored (their number and kinds are in the evidence); nothing is claimed about inputs the generators do not reach. "
+                                       "Sub-spaces enumerated completely are flagged exhaustive in the evidence but do not change the level." % (", Miri" if any(st["flavour"] == "miri" for st in p["plan"]["quick"]) else "")),
             "design_ref": p.get("design_ref", "DESIGN.md section 4, " + pid),
         },
-        "level_note": p.get("level_note", "Trusted: rustc/cargo/Miri, the harness and its independent reference models (harness/src/refm). "
-                                         "Coverage is what the generators reach; see evidence coverage.rule and coverage.observed."),
+        "level_note": p.get("level_note", "Trusted base / assumptions: " + "; ".join(p["assumptions"]) + ". Coverage is what the generators reach; "
+                                         "see evidence coverage.rule, coverage.observed and coverage.exhaustive_subspaces."),
         "technique": p["technique"],
     })
 na = [{"property_id": pid, "reason": NOT_APPLICABLE.get(pid, "check not built yet in this revision of /verif (work in progress)")} for pid in ALL if pid not in PROPS]
